@@ -31,5 +31,6 @@ RULE = (
     "Metadata request covering it. non-trivial = >=2 delivered metadata replies, or a full refresh removing a connected broker, or a re-addressed broker; "
     "distinct = distinct trace. The recovery clause (producing/consuming resume) is checked by the PROD and CONS engines."
     " Topics can be deleted and re-created with fewer partitions (ops tdel/tnew, script 'topicgone'); the reply a load consumed is matched by correlation id and address knowledge is ordered by delivery; an acks=0 success with an unwritten payload is a hidden failed send that must have invalidated the routing."
+    " A failed send invalidates what it used: the failed payloads' topics, or - for OffsetCommit/OffsetFetch - the group's cached coordinator (no such request of a later call before a FindCoordinator for the group is written or a FindCoordinator reply for it is delivered). Metadata replies list partitions in ascending, descending or rotated order (md_order)."
 )
 ASSUMPTIONS = ["whether a delivered reply was consumed is not observable (late replies are discarded), hence clause (b) quantifies over all delivered replies since the last witnessed one"]
